@@ -103,6 +103,14 @@ func genROp(t *rapid.T, nest bool) ROp {
 		}
 		if nest && rapid.IntRange(0, 2).Draw(t, "nested") == 0 {
 			inner := genROp(t, false)
+			if (inner.Kind == ROpStored || inner.Kind == ROpDocValues) && rapid.IntRange(0, 4).Draw(t, "burst") == 0 {
+				// a burst: dozens of visits from inside one visitor callback (more
+				// overlapping visits than any fixed-size ring of contexts has slots)
+				k := rapid.IntRange(40, 90).Draw(t, "burst-n")
+				for i := 0; i < k; i++ {
+					inner.Docs = append(inner.Docs, rapid.IntRange(0, 2200).Draw(t, "bdoc"))
+				}
+			}
 			op.Nest = &inner
 		}
 	}
